@@ -30,6 +30,8 @@ def _floatlike(v):
 
 
 def _overlap(f, node, accepting, pred):
+    if f.get("backend", "pandas") != "pandas":
+        return False          # the recorded overlaps are those of the pandas guards; the same pair in another backend is a different call site
     if f.get("node") != node or sorted(f.get("accepting", [])) != sorted(accepting):
         return False
     vals, others = _strings(f)
